@@ -41,6 +41,32 @@ theorem C28_ward_extension (Yii : Matrix ι ι K) (Yie : Matrix ι ε K) (Yei : 
     rw [h']; abel
   · rw [mulVec_mulVec, mul_invOf_self, one_mulVec]; abel
 
+/-- **exactly**: the internal / boundary voltages that can be completed to a solution of the full nodal system are the
+    solutions of the reduced (ward equivalent) system — nothing is lost and nothing is added by the reduction -/
+theorem C28_ward_iff (Yii : Matrix ι ι K) (Yie : Matrix ι ε K) (Yei : Matrix ε ι K) (Yee : Matrix ε ε K)
+    [Invertible Yee] (Vi Ii : ι → K) (Ie : ε → K) :
+    (∃ Ve : ε → K, Yii *ᵥ Vi + Yie *ᵥ Ve = Ii ∧ Yei *ᵥ Vi + Yee *ᵥ Ve = Ie) ↔
+      (Yii - Yie * ⅟Yee * Yei) *ᵥ Vi = Ii - (Yie * ⅟Yee) *ᵥ Ie := by
+  constructor
+  · rintro ⟨Ve, h1, h2⟩
+    exact C28_ward_reduction Yii Yie Yei Yee Vi Ii Ve Ie h1 h2
+  · intro h
+    exact ⟨_, C28_ward_extension Yii Yie Yei Yee Vi Ii Ie h⟩
+
+/-- the external voltages are determined by the internal ones (the equivalent loses no information about the state) -/
+theorem C28_external_determined (Yei : Matrix ε ι K) (Yee : Matrix ε ε K) [Invertible Yee] (Vi : ι → K) (Ve Ve' Ie : ε → K)
+    (h : Yei *ᵥ Vi + Yee *ᵥ Ve = Ie) (h' : Yei *ᵥ Vi + Yee *ᵥ Ve' = Ie) : Ve = Ve' := by
+  have e : Yee *ᵥ Ve = Yee *ᵥ Ve' := by
+    have := h.trans h'.symm
+    exact add_left_cancel this
+  have := congrArg (fun v => ⅟Yee *ᵥ v) e
+  simpa [mulVec_mulVec, invOf_mul_self] using this
+
+/-- a second reduction step: reducing a system whose external part has no coupling to the kept part changes nothing -/
+theorem C28_uncoupled_external (Yii : Matrix ι ι K) (Yei : Matrix ε ι K) (Yee : Matrix ε ε K) [Invertible Yee] :
+    Yii - (0 : Matrix ι ε K) * ⅟Yee * Yei = Yii := by
+  simp
+
 theorem C28_original_copied_first : copiesBeforeUse = true := by decide
 
 end PPVerif.Props.C28
